@@ -51,7 +51,7 @@ def tetrad_to_graph(filename: str, graph_type):
             words = line.split()
 
             # add nodes to the graph
-            if len(words) > 1 and words[1] == "Nodes:":
+            if line == "Graph Nodes:":
                 next_nodes_line = True
             elif len(line) > 0 and next_nodes_line:
                 next_nodes_line = False
